@@ -296,6 +296,9 @@ func (p *PacketOut) UnmarshalBinary(data []byte) error {
 			return err
 		}
 		p.Actions = append(p.Actions, a)
+		if a.Len() == 0 {
+			return errors.New("The packet-out contains an action of length 0.")
+		}
 		n += a.Len()
 	}
 
